@@ -30,7 +30,7 @@ RULE = ("TLC behaviours of Gen_CalcEnv (environment transition cover) bound by s
 
 def make_P(ctx, design=False):
     return cc.make_P(ctx, CFG, UNIVERSES, nontrivial, RULE, design=design, env={"VERIF_FRESH": "none"},
-                     quick_beh=120, thorough_beh=1000, n_random=(120, 1000),
+                     quick_beh=120, thorough_beh=2000, n_random=(120, 2000),
                      assumptions=["no two profiles of one endpoint carry the same label name in the catalogue (the statement does not order parents)"])
 
 
